@@ -971,6 +971,25 @@ def explore_profiles(prop, tier, seed, n_quick):
             tp = h.create_tree_profile()
             tp_first_read = ob.profileS(tp.treemap)
             o.put('tpfull', tp_first_read)
+            if prop == 'C09' and D.families:
+                # the five event numbers of every node against the comparison with its parent worked out from the GENERATING
+                # HISTORIES (harness/truth.py, independent of pyham and of the Lean model): a profile made of comparisons that are
+                # wrong in a way that still balances is a failing input, not only a broken correspondence (r13-C09b)
+                roots9_ = [r_ for _, r_ in orc.truth_roots(D)]
+                ref9_ = set(orc.refs_of(D.groups))
+                txof9_ = {gen.sub(D.T, p_)[0]: p_ for p_ in gen.paths(D.T) if not gen.sub(D.T, p_)[1]}
+                singles9_ = [(g_, txof9_[sp_]) for sp_, gs_ in D.species for g_, _ in gs_ if g_ not in ref9_]
+                for nd_ in tp.treemap.traverse():
+                    if nd_.is_root():
+                        continue
+                    p_ = ob.pathof_rel(nd_)
+                    f_ = dict(x_.split('=', 1) for x_ in tr.classify(roots9_, singles9_, p_[:-1], p_).split('|')[1:])
+                    cnt_ = lambda t_: len([y_ for y_ in t_.split(';') if y_])
+                    want_ = (cnt_(f_['G']), cnt_(f_['R']), sum(len(y_.split('>', 1)[1].split('+')) for y_ in f_['D'].split(';') if y_), cnt_(f_['L']), int(f_['n']))
+                    got_ = (nd_.gain, nd_.retained, nd_.dupl, nd_.lost, nd_.duplication)
+                    if got_ != want_:
+                        bad.append('profile at %s reports gained / retained / duplicated / lost / duplication events %s, the generating histories give %s' % (taxS(p_), got_, want_))
+                        break
             if D.families:
                 # the same numbers against what the HISTORIES say about every branch (Lean: copiesInto / eventsInto, computed
                 # from the histories alone; theorem C09_profile_numbers_are_the_history)
